@@ -85,10 +85,16 @@ TTL_LIMIT = [("lru", "global"), ("lfu", "global"), ("arc", "global"), ("random",
              ("fifo", "async"), ("lru", "async"), ("lfu", "async"), ("tlru", "async")]
 
 
+# Result functions with TTL + entry limit and NO predicates, every flavour (C09 with expiry: an Err after an EXPIRED
+# entry must leave neither an entry nor an order-queue slot for its key; two of them memory-aware)
+RESULT_TTL_LIMIT = [("fifo", "thread", None), ("lfu", "thread", None), ("lru", "global", None), ("arc", "async", None),
+                    ("lru", "thread", 1), ("fifo", "async", 2), ("tlru", "global", None), ("random", "thread", None)]
+
+
 def gen(seed, n):
     """the first 48 functions are random (seeded); then the 4 fixed ones (plain, F7 witnesses); then the systematic
     block: flavour x policy with limit + invalidate_on, and flavour x policy with max_memory + cache_if"""
-    base_n = n - len(SYSTEMATIC) - len(EXTRA) - len(PLAIN) - len(PLAIN_RESULT) - len(TTL_LIMIT)
+    base_n = n - len(SYSTEMATIC) - len(EXTRA) - len(PLAIN) - len(PLAIN_RESULT) - len(TTL_LIMIT) - len(RESULT_TTL_LIMIT)
     fns = gen_random(seed, base_n)
     rng = random.Random(seed * 7 + 3)
     for k, sy in enumerate(SYSTEMATIC):
@@ -124,6 +130,12 @@ def gen(seed, n):
         fns.append(dict(i=i, real_result=False, is_async=(fl == "async"), policy=pol, limit=2 + k % 2, maxmem=None, ttl=1 + k % 2,
                         fw=FWS[2] if pol == "tlru" else None, scope=None, sig=SIGS[1 + k % 2], ret=RETS[k % 2], name=None,
                         tags=([TAGS[1]] if k % 3 == 0 else []), events=[], deps=[], cache_if=False, inv_on=False, thread_scope=False))
+    for k, (pol, fl, mm) in enumerate(RESULT_TTL_LIMIT):
+        i = base_n + len(SYSTEMATIC) + len(EXTRA) + len(PLAIN) + len(PLAIN_RESULT) + len(TTL_LIMIT) + k
+        fns.append(dict(i=i, real_result=False, is_async=(fl == "async"), policy=pol, limit=2 + k % 2, maxmem=(MAXMEM[mm] if mm else None),
+                        ttl=1 + k % 2, fw=FWS[2] if pol == "tlru" else None, scope=("thread" if fl == "thread" else None),
+                        sig=SIGS[1 + k % 2], ret=RETS[3 + k % 2], name=None, tags=[], events=[], deps=[], cache_if=False, inv_on=False,
+                        thread_scope=(fl == "thread")))
     return fns
 
 
